@@ -12,14 +12,16 @@ NoEv == [c |-> [pfx |-> "none", local |-> FALSE, mod |-> "", verb |-> ""], accep
 AttrMap(s) == [f \in { s[x].id : x \in 1..Len(s) } |->
                  LET e == s[CHOOSE x \in 1..Len(s) : s[x].id = f] IN
                  [scope |-> e.scope, schemes |-> { e.schemes[k] : k \in 1..Len(e.schemes) }, uri |-> e.uri, luri |-> e.luri]]
-TInit == routes = {} /\ nh = Empty /\ st = Empty /\ cap = 0 /\ faces = Empty /\ fattr = Empty /\ lh = FALSE /\ ev = NoEv /\ l = 1 /\ hi = 0 /\ TLCSet(7, 0)
+PropMap(s) == [f \in { s[x].id : x \in 1..Len(s) } |->
+                 LET e == s[CHOOSE x \in 1..Len(s) : s[x].id = f] IN [pers |-> e.pers, lf |-> e.lf, cm |-> e.cm]]
+TInit == fprop = Empty /\ routes = {} /\ nh = Empty /\ st = Empty /\ cap = 0 /\ faces = Empty /\ fattr = Empty /\ lh = FALSE /\ ev = NoEv /\ l = 1 /\ hi = 0 /\ TLCSet(7, 0)
 \* for a command the statement lets the implementation refuse or accept, the observed status decides
 Took(c, status) == IF Authorised(c) /\ Known(c) /\ ~Malformed(c) /\ MayRefuse(c) THEN status = "200" ELSE Accepts(c)
 Step ==
   /\ l <= Len(Trace) /\ l' = l + 1 /\ hi' = l
   /\ \/ /\ Ev.ev = "Reset"
         /\ routes' = RouteSet(Ev.routes0) /\ nh' = Empty /\ st' = (<<>> :> Ev.rootStrategy) /\ cap' = Ev.cap
-        /\ faces' = FaceMap(Ev.faces) /\ fattr' = AttrMap(Ev.faces) /\ lh' = Ev.lh /\ ev' = NoEv
+        /\ faces' = FaceMap(Ev.faces) /\ fattr' = AttrMap(Ev.faces) /\ fprop' = PropMap(Ev.faces) /\ lh' = Ev.lh /\ ev' = NoEv
      \/ Ev.ev = "cmd" /\ Command(Ev.c, Took(Ev.c, Ev.o.status))
 TSpec == TInit /\ [][Step]_tvars
 HiWater == TLCSet(7, IF TLCGet(7) < hi THEN hi ELSE TLCGet(7))
@@ -28,7 +30,7 @@ IsCmd == l <= Len(Trace) /\ Ev.ev = "cmd"
 \* ---- rules on the response, evaluated in the state the command arrived in ------------------------------
 T_C17nocrash == [][IsCmd => Ev.o.status # "CRASH"]_tvars
 T_C17status  == [][(IsCmd /\ Ev.o.status # "CRASH") => StatusOK(Ev.c, Ev.o.status)]_tvars
-T_C17auth    == [][(IsCmd /\ (routes' # routes \/ nh' # nh \/ st' # st \/ cap' # cap \/ faces' # faces)) => Authorised(Ev.c)]_tvars
+T_C17auth    == [][(IsCmd /\ (routes' # routes \/ nh' # nh \/ st' # st \/ cap' # cap \/ faces' # faces \/ fprop' # fprop)) => Authorised(Ev.c)]_tvars
 \* ---- rules on what is observed after the command (the model has taken the step) -------------------------
 Obs == hi > 0 /\ Last.ev = "cmd" /\ Last.o.status # "CRASH"
 NhLive == [p \in { q \in DOMAIN nh : DOMAIN nh[q] # {} } |-> nh[p]]
@@ -40,7 +42,9 @@ I_C17strats == Obs => StratMap(Last.o.strats) = st /\ Len(Last.o.strats) = Cardi
 I_C17cap    == Obs => Last.o.cap = cap
 I_C17fib    == Obs => /\ FibOf(Last.o.fib) = NhLive
                       /\ \A r \in routes : \E x \in 1..Len(Last.o.fib) : Last.o.fib[x].p = r.p /\ \E k \in 1..Len(Last.o.fib[x].hops) : Last.o.fib[x].hops[k][1] = r.face
-I_C17faces  == Obs => FaceMap(Last.o.faces) = faces
+I_C17faces  == Obs => FaceMap(Last.o.faces) = faces /\ PropMap(Last.o.faces) = fprop
+\* ... and faces/list shows the same properties
+I_C17fprop  == Obs => PropMap(Last.o.dsFaces) = fprop
 FibAll(s) == [p \in { s[x].p : x \in 1..Len(s) } |->
               LET e == s[CHOOSE x \in 1..Len(s) : s[x].p = p] IN
               [f \in { e.hops[k][1] : k \in 1..Len(e.hops) } |-> e.hops[CHOOSE k \in 1..Len(e.hops) : e.hops[k][1] = f][2]]]
